@@ -271,7 +271,7 @@ fn oracle_lookup(which: &str, got: &str, fdes: &[OFde], a: u64) -> Option<String
     }
     // an FDE ending exactly at the top of the address space: `end_address` wraps to 0
     if let Some(f) = exp {
-        if f.initial as u128 + f.len as u128 == top(f.asz) && got == "!NoUnwindInfoForAddress" {
+        if f.initial as u128 + f.len as u128 == top(f.asz) {
             return Some(format!("top-of-address-space {which} expected={exp_s} got={got}"));
         }
     }
